@@ -754,12 +754,12 @@ def make_worker(base_image, conf=None, fk=True):
     return ConcWorker(base_image, conf, fk)
 
 
-def run_scenarios(ctx, prop, scenarios, modname='vp.explore_conc', fk=True):
+def run_scenarios(ctx, prop, scenarios, modname='vp.explore_conc', fk=True, conf=None):
     """scenarios: list of dict(name, setup, requests, bound, max_exec). Returns totals."""
     from vp.boot import make_base_image
     from vp.workers import Pool
     base = make_base_image()
-    pool = Pool(ctx.workers, 'vp.explore_conc', 'make_worker', (base, None, fk))
+    pool = Pool(ctx.workers, 'vp.explore_conc', 'make_worker', (base, conf, fk))
     tot = {'scenarios': 0, 'executions': 0, 'states': 0, 'transitions': 0, 'leaves': 0,
            'capped': [], 'single_outcome': [], 'outcome_vectors': {}, 'nested_read_scenarios': 0,
            'determinism_checks': 0, 'max_preemptions': 0, 'samples': [], 'notes': {}}
